@@ -26,7 +26,7 @@ func init() {
 		Workers:     4,
 		Race:        true,
 		CaseTimeout: 240e9,
-		Rule: "real parallel executions under the Go race detector: 2-16 clients call ProcessPushPull at the same instant on a shared key and on their own keys (each call with its own context, cancelled on return), mixed with ProcessClient and PatchDocument calls, in several waves, with random yields / sleeps injected at the push-pull hook points and at database commands; monitors: (1) critical-section overlap from the cs-enter / cs-exit hook events per (collection, key); (2) linearizability of the recorded call/return history of every key against the sequential push-pull specification (porcupine, partitioned by key; operations carry unique ids; an error reply is a no-op); (3) store invariants of C06 at the end; (4) independence: one key's handler is held inside its critical section by a gate on its database write while requests on other keys (one existing, 40 fresh ones) must return and must not be refused for their lock; (5) every request returns (watchdog classification), including pull-only requests of a client that gives up (context cancelled before the call, 0.1-2 ms into it, or exactly when its handler is about to take the key's lock - hook pp.before-lock), and afterwards sequential fault-free syncs of all clients reach quiescence (a leaked lock or a blocked key shows here); (6) race-detector reports attributed to orda code (none of the accesses in harness code), deduplicated by the pair of innermost orda functions; " +
+		Rule: "real parallel executions under the Go race detector: 2-16 clients call ProcessPushPull at the same instant on a shared key and on their own keys (each call with its own context, cancelled on return), mixed with ProcessClient and PatchDocument calls, with pull-only requests of a subscribed reader that carry the read-only bit, in several waves, with random yields / sleeps injected at the push-pull hook points and at database commands; monitors: (1) critical-section overlap from the cs-enter / cs-exit hook events per (collection, key); (2) linearizability of the recorded call/return history of every key against the sequential push-pull specification (porcupine, partitioned by key; operations carry unique ids; an error reply is a no-op); (3) store invariants of C06 at the end; (4) independence: one key's handler is held inside its critical section by a gate on its database write while requests on other keys (one existing, 40 fresh ones) must return and must not be refused for their lock; (5) every request returns (watchdog classification), including pull-only requests of a client that gives up (context cancelled before the call, 0.1-2 ms into it, or exactly when its handler is about to take the key's lock - hook pp.before-lock), and afterwards sequential fault-free syncs of all clients reach quiescence (a leaked lock or a blocked key shows here); (6) race-detector reports attributed to orda code (none of the accesses in harness code), deduplicated by the pair of innermost orda functions; " +
 			"non-trivial = >= 3 clients pushed operations to the shared key in the same wave; distinct = hash of the observed per-key critical-section entry order (the interleaving actually seen)",
 		Assumptions: []string{
 			"only the in-process local lock is exercised (no Redis in the sandbox); a single server process",
